@@ -48,6 +48,27 @@ CLAIMED = {
     "C27": ("exploration",
             "Localhost loopback traffic end to end plus, at seeded points, VerifyMembership/VerifyNonMembership for 09-localhost through the client router on a throw-away branch of the latest state with keys sampled from the store census, perturbed keys, wrong values and wrong proofs; verdicts must equal the census. Client operations addressed to 09-localhost must be refused with no state change.",
             "deterministic simulation: store-census reference model for localhost verification at seeded points of live histories", "8 C27"),
+    "C30": ("exploration",
+            "2-3 real chains in a line or mesh of ICS-20 channels (v1, v2-over-alias, v2 clients) with the real rate-limit -> packet-forward -> transfer stack; users move natives (incl. '/'-segmented names) and vouchers over several hops and back under dropped/duplicated/replayed/reordered/raced relays, invalid and blocked receivers, tight timeouts, restarts. After EVERY block: real change of every bank balance and supply == sum of the ICS-20 reference model's predictions for the committed transactions; per channel end and escrowed denomination: escrow (net of donations) == voucher supply on the peer + in flight; native supplies constant.",
+            "deterministic simulation: multi-chain token traffic under relay faults, ICS-20 reference model + cross-chain conservation equations on real bank state", "8 C30"),
+    "C31": ("exploration",
+            "Same token worlds plus direct donations to escrow accounts: after every block the queried total-escrow-for-denom equals the model ledger of IBC escrows minus releases (incl. refunds and unwinding receives), is >= 0 and <= the combined balance of the transfer escrow accounts.",
+            "deterministic simulation: ledger reference model of tracked escrow vs queried state every block", "8 C31"),
+    "C32": ("exploration",
+            "Token worlds biased to failing transfers (invalid/blocked receivers, height and time timeouts, timeout raced against receive; native, voucher and '/'-named denominations; v1/alias/v2). Each refund transaction's real bank diff must be exactly +amount of the ORIGINAL denomination to the original sender and the reverse of the send on escrow/supply, exactly once; success acks change nothing; after faults stop and an honest relayer drains, no failed transfer is left unrefunded.",
+            "deterministic simulation: fault-injected transfer failures, per-transaction bank-diff oracle + bounded-liveness drain", "8 C32"),
+    "C33": ("exploration",
+            "Token worlds biased to round trips over the same channel for native denominations drawn from a '/'-segment grammar (port-like, channel-like, client-like, hash-like segments): a returning voucher must be accepted and the origin must release exactly the original native from that channel's escrow (bank diff vs model); no return is stuck after the drain.",
+            "deterministic simulation: round-trip workloads over a denomination grammar, bank-diff oracle + bounded-liveness drain", "8 C33"),
+    "C41": ("exploration",
+            "Token worlds with rate limits administered through the REAL gov module (add/update/reset/remove, binding 0-2% quotas on small-supply vouchers), transfers both ways with success/error acks, timeouts, duplicates, replays, clock jumps across hour boundaries. After every block the stored inflow/outflow/channel value of every rate limit equals a reference model (accepted in the current window minus undone in it, each packet at most once; error-ack receives net zero); accept/refuse agrees with the quota. Window resets are observed (isolated in empty blocks, accepted only as full resets).",
+            "deterministic simulation: simulated clock + gov-driven administration + relay faults, rate-limit reference model compared every block", "8 C41"),
+    "C42": ("exploration",
+            "Token worlds where every denomination in play gets a generous rate limit on the channels it moves over, so every movement is charged: the (denomination, channel) whose flow moved must be the one whose bank movement the ICS-20 model predicts (escrow/burn on send, mint/unescrow on receive), same amount, for natives, '/'-named natives, multi-hop vouchers and unwinding paths over v1/alias/v2.",
+            "deterministic simulation: rate-limit flow diff vs ICS-20 bank-movement model per committed transfer", "8 C42"),
+    "C49": ("exploration",
+            "Token worlds with relays submitted by arbitrary accounts: per block every non-module account whose balance decreased signed a transaction of that block; credits from receive/ack/timeout go only to the packet's receiver or refund its original sender (bank diff vs model).",
+            "deterministic simulation: per-block debit attribution against transaction signers + ICS-20 model", "8 C49"),
     "C08": ("exploration",
             "Interleaved v1 sends, v2 sends on the alias of the same channel and on plain clients (several users per block), timeouts on every guard boundary, clients expiring between sends, channels closing. Oracles: returned sequences per source id are 1,2,3,... (shared by v1 and alias); one new commitment key per successful send; accept/refuse equals the specification's guard predicate evaluated on the real pre-state.",
             "deterministic simulation: interleaved v1/alias/v2 sends with boundary timeouts, sequential counter model + guard predicate on real pre-state", "8 C08"),
